@@ -59,6 +59,49 @@ func (c *Ctx) ruleDisabled(rule string) {
 				c.M.Key(fn)+" hands the data to the property's type and may return a nil error without having looked at Disabled: the sibling operations refuse a disabled property, so a value accepted here is refused by them (Serialize emits what Unserialize of the same schema rejects)")
 		}
 	}
+	// schema mode (C15 "a producer that can never be consumed is always rejected"): a property that refuses every use
+	// of it cannot consume a producer that always supplies it. In the schema-mode part of the property's compatibility
+	// check, an accepting return is reached with Disabled false (flag test or the enabledness helper), or only where
+	// the producer's property was found not required.
+	for _, fn := range methods {
+		if fn.Name() != "ValidateCompatibility" {
+			continue
+		}
+		ei := core.ErrorResultIndex(fn.Signature)
+		enabled := core.MustHold(fn, c.enabledFact(fn, memo))
+		k := key(rule, c.M.Key(fn), "a disabled property does not accept a producer that requires it")
+		bad, n := "", 0
+		for _, r := range core.ReturnsOf(fn) {
+			if !schemaModeAt(r.Block(), fn) {
+				continue
+			}
+			e := core.RetVal(r, ei)
+			if errDefinitelyNonNil(e, r.Block()) {
+				continue
+			}
+			n++
+			notRequired := false
+			for _, cond := range core.CondsAt(r.Block()) {
+				if call, ok := cond.V.(*ssa.Call); ok && !cond.True {
+					if callee := call.Call.StaticCallee(); callee != nil && callee.Name() == "Required" && len(call.Call.Args) == 1 && call.Call.Args[0] != ssa.Value(fn.Params[0]) {
+						notRequired = true
+					}
+				}
+			}
+			if !(enabled[r.Block()] || c.isEnablednessHelperCall(e, fn, memo) || notRequired) {
+				bad = c.M.InstrPos(r)
+			}
+		}
+		switch {
+		case n == 0:
+			c.R.Unresolved(rule, "accepting returns in the schema-mode part of PropertySchema.ValidateCompatibility")
+		case bad == "":
+			c.R.Ok(rule, k, c.M.Pos(fn.Pos()), "schema-mode compatibility of a property", sprintf("%d accepting returns: each carries the disabled rule's verdict, is reached with Disabled == false, or only where the producer's property is not required", n))
+		default:
+			c.R.Bad(rule, k, bad, "a disabled property is reported compatible with a producer that requires the property",
+				"every value such a producer emits sets the property, and Unserialize, Validate, Serialize and the data-mode check of the consumer refuse every value that does: the producer can never be consumed")
+		}
+	}
 	c.R.Floor(rule, 4)
 }
 
